@@ -196,6 +196,8 @@ func checkC14(rep *vk.Report, prop string) {
 		}
 	}
 	if prop == "C14" {
+		// atomicity that the race detector cannot see: Cancel racing with the retry loop of the async runner
+		cancelStress(rep, "C14", 50000000, scale(rep, 30000, 600000))
 		rep.Require("executions", 10000)
 		rep.Require("rounds_with_concurrency_inside_library", 50)
 	}
